@@ -158,7 +158,8 @@ class IterativeTighteningSearch(Bounded, Generic[B]):
                 and self.best_match.bounds().dominates(node.item.bounds()):
             self._delete_node(node)
             return
-        elif self.initial_bounds.dominates(node.item.bounds()):
+        elif self.initial_bounds.upper_bound < node.item.bounds().lower_bound:
+            # (an item whose lower bound *equals* the known upper bound may still be the optimum)
             self._delete_node(node)
             return
         bounds: Range = node.item.bounds()
